@@ -139,6 +139,158 @@ class GhostIterable:
         raise Unsupported("native iteration over a ghost collection")
 
 
+class GSeq(GhostIterable):
+    """abstract SEQUENCE OF UNKNOWN LENGTH (ghost list calculus for modular, unbounded contracts).
+
+    A sequence is described by how it was obtained, never by its content:
+      atom     an opaque list `name` of any length L >= 0 whose GENERIC element is `elem` (an object with symbolic leaves, supplied by the contract)
+      reversed the source read backwards
+      comp     [image for x in src if kept]: order-preserving filter-map (Python's comprehension semantics); on the current path the generic element of
+               src was kept (kept=True) with value `image`, or dropped (kept=False)
+      concat   a ++ b        repeat  src * n        copy  deepcopy(src)
+    `for` loops and comprehensions over a GSeq are cut: the body runs ONCE on the generic element (loop cut, Interp.s_For / Interp._comp) between the
+    protocol hooks init / havoc / step / exit that a contract may attach to an atom (`proto`); reading the content any other way is Unsupported.
+    Emptiness is decided by forking on L > 0."""
+
+    def __init__(self, kind, name=None, elem=None, src=None, src2=None, kept=None, image=None, n=None, proto=None, length=None):
+        self.kind, self.name, self.elem, self.src, self.src2 = kind, name, elem, src, src2
+        self.kept, self.image, self.n, self.proto, self._length = kept, image, n, proto, length
+        self.iterations = 0
+
+    # constructors -------------------------------------------------------------------------------------------------
+    @staticmethod
+    def atom(name, elem, proto=None, length=None):
+        return GSeq("atom", name=name, elem=elem, proto=proto, length=length)
+
+    def length(self):
+        """symbolic length (only atoms carry one)"""
+        if self.kind == "atom":
+            if self._length is None:
+                c = current()
+                if c.symbolic:
+                    L = c.integer(f"len({self.name})")
+                    c.assume(L >= 0)
+                else:
+                    L = int(c.concrete.get(f"len({self.name})", 1))
+                self._length = L
+            return self._length
+        if self.kind in ("reversed", "copy"):
+            return self.src.length()
+        if self.kind == "concat":
+            return self.src.length() + self.src2.length()
+        if self.kind == "repeat":
+            return self.src.length() * self.n
+        raise Unsupported(f"length of the filtered ghost sequence {self}")
+
+    def describe(self):
+        k = self.kind
+        if k == "atom":
+            return ("atom", self.name)
+        if k == "comp":
+            return ("comp", self.src.describe())
+        if k == "concat":
+            return ("concat", self.src.describe(), self.src2.describe())
+        if k == "repeat":
+            return ("repeat", self.src.describe())
+        return (k, self.src.describe())
+
+    def __repr__(self):
+        return f"<GSeq {self.describe()}>"
+
+    # the algebra recorded structurally ------------------------------------------------------------------------------
+    def __add__(self, o):
+        if not isinstance(o, GSeq):
+            raise Unsupported("ghost sequence + concrete list")
+        return GSeq("concat", src=self, src2=o)
+
+    def __mul__(self, n):
+        return GSeq("repeat", src=self, n=n)
+
+    __rmul__ = __mul__
+
+    def __reversed__(self):
+        return GSeq("reversed", src=self)
+
+    def __deepcopy__(self, memo):
+        return GSeq("copy", src=self)
+
+    def __copy__(self):
+        raise Unsupported("shallow copy of a ghost sequence")
+
+    def nonempty(self):
+        if self.kind == "comp":
+            if self.kept:
+                return True     # the generic element of the source was kept on this path: the filtered sequence has an element
+            raise Unsupported("emptiness of a filtered ghost sequence on a path where its generic element was dropped")
+        return truth(self.length() > 0)
+
+    def __bool__(self):
+        return self.nonempty()
+
+    def __len__(self):
+        raise Unsupported("len() of a ghost sequence must go through the interpreter")
+
+    def __getitem__(self, i):
+        raise Unsupported(f"indexing the ghost sequence {self}")
+
+    def __getattr__(self, a):
+        if a.startswith("__"):
+            raise AttributeError(a)
+        raise Unsupported(f"operation .{a} on the ghost sequence {self}")
+
+    # loop-cut protocol ----------------------------------------------------------------------------------------------
+    def _atoms(self):
+        if self.kind == "atom":
+            return [self]
+        out = self.src._atoms()
+        if self.src2 is not None:
+            out += self.src2._atoms()
+        return out
+
+    def element(self):
+        self.iterations += 1
+        return self._element()
+
+    def _element(self):
+        k = self.kind
+        if k == "atom":
+            return self.elem
+        if k in ("reversed", "repeat"):
+            return self.src._element()
+        if k == "copy":
+            import copy as _c
+            return _c.deepcopy(self.src._element())
+        if k == "comp":
+            if not self.kept:
+                raise Unsupported("iteration over a filtered ghost sequence on a path where its generic element was dropped")
+            return self.image
+        if k == "concat":
+            c = current()
+            left = c.boolean(f"generic element of {self.describe()} comes from the left part") if c.symbolic else bool(c.concrete.get("left", True))
+            return self.src._element() if truth(left) else self.src2._element()
+        raise Unsupported(k)
+
+    def init(self, interp, env):
+        for a in self._atoms():
+            if a.proto is not None:
+                a.proto.init(interp, env)
+
+    def havoc(self, interp, env):
+        for a in self._atoms():
+            if a.proto is not None:
+                a.proto.havoc(interp, env)
+
+    def step(self, interp, env, broke):
+        for a in self._atoms():
+            if a.proto is not None:
+                a.proto.step(interp, env, broke)
+
+    def exit(self, interp, env):
+        for a in self._atoms():
+            if a.proto is not None:
+                a.proto.exit(interp, env)
+
+
 class IFunc:
     """a function object created by interpreting a `def` / `lambda` inside interpreted code"""
 
@@ -804,6 +956,9 @@ class Interp:
             #   one generic iteration of the real body;  step(env): the invariant is re-established;
             #   exit(env): arbitrary invariant state for the code after the loop
             itv.init(self, env)
+            if isinstance(itv, GSeq) and not itv.nonempty():
+                self.exec_block(s.orelse, env)      # empty sequence: the loop body does not run, the entry state is the exit state
+                return
             itv.havoc(self, env)
             self.assign(s.target, itv.element(), env)
             broke = False
@@ -1164,21 +1319,45 @@ class Interp:
                 return f"<{type(v).__name__}>"
             raise
 
-    def _comp(self, gens, env, emit):
+    def _comp_ghost(self, e, env, kind):
+        """comprehension over a sequence of unknown length (GSeq): evaluated ONCE on the generic element (loop cut); the value is the abstract sequence
+        comp(src, kept, image).  Only a single generator is supported; a comprehension executed for its side effects runs between the protocol hooks."""
+        gens = e.generators
+        itv = self.eval(gens[0].iter, env)
+        if not isinstance(itv, GSeq):
+            return _NOGHOST, itv
+        if len(gens) != 1 or kind not in ("list", "gen"):
+            raise Unsupported("comprehension over a ghost sequence with several generators / of set or dict type")
+        en = Env(env, env.globals)
+        itv.init(self, en)
+        if not itv.nonempty():
+            return GSeq("comp", src=itv, kept=False, image=None, n="empty"), itv
+        itv.havoc(self, en)
+        self.assign(gens[0].target, itv.element(), en)
+        kept = all(truth(self.eval(c, en)) for c in gens[0].ifs)
+        image = self.eval(e.elt, en) if kept else None
+        itv.step(self, en, False)
+        itv.exit(self, en)
+        return GSeq("comp", src=itv, kept=kept, image=image), itv
+
+    def _comp(self, gens, env, emit, first=None):
         def rec(i, env):
             if i == len(gens):
                 emit(env)
                 return
             g = gens[i]
-            for x in self.iterate(self.eval(g.iter, env)):
+            for x in self.iterate(first.v if (i == 0 and first is not None) else self.eval(g.iter, env)):
                 self.assign(g.target, x, env)
                 if all(truth(self.eval(c, env)) for c in g.ifs):
                     rec(i + 1, env)
         rec(0, Env(env, env.globals))
 
     def e_ListComp(self, e, env):
+        g, itv = self._comp_ghost(e, env, "list")
+        if g is not _NOGHOST:
+            return g
         out = []
-        self._comp(e.generators, env, lambda en: out.append(self.eval(e.elt, en)))
+        self._comp(e.generators, env, lambda en: out.append(self.eval(e.elt, en)), first=_Once(itv))
         return out
 
     def e_SetComp(self, e, env):
@@ -1187,8 +1366,11 @@ class Interp:
         return out
 
     def e_GeneratorExp(self, e, env):
+        g, itv = self._comp_ghost(e, env, "gen")
+        if g is not _NOGHOST:
+            return g
         out = []
-        self._comp(e.generators, env, lambda en: out.append(self.eval(e.elt, en)))
+        self._comp(e.generators, env, lambda en: out.append(self.eval(e.elt, en)), first=_Once(itv))
         return iter(out)
 
     def e_DictComp(self, e, env):
@@ -1210,6 +1392,14 @@ class Interp:
 
 
 _NOMODEL = object()
+_NOGHOST = object()
+
+
+class _Once:
+    """the already evaluated iterable of a comprehension's first generator (evaluated once, as Python does)"""
+
+    def __init__(self, v):
+        self.v = v
 
 
 def _lookup(t, name):
@@ -1362,6 +1552,8 @@ def _m_bool(interp, f, args, kw):
 @model(len, doc="len dispatches to an interpreted __len__ for repository classes")
 def _m_len(interp, f, args, kw):
     x = args[0]
+    if isinstance(x, GSeq):
+        return x.length()
     m = _lookup(type(x), "__len__")
     if m is not None and interp.node_of(m) is not None:
         return interp.call_value(m, [x], {})
@@ -1550,6 +1742,8 @@ class SymSet(list):
 def _m_enum(interp, f, args, kw):
     if f is reversed:
         x = args[0]
+        if isinstance(x, GSeq):
+            return x.__reversed__()
         if isinstance(x, GhostIterable):
             x.reversed = True
             return x
